@@ -121,3 +121,27 @@ Section WithCodec.
       apply (find_in_run av es e t Hr Hin); [left; lia|intros _; lia].
   Qed.
 End WithCodec.
+
+(* ---- any encoder: a PMTiles file that is valid by the published layout, whatever the order of its sections ---- *)
+Section AnyEncoder.
+  Variable unzip : bytes -> option bytes.
+
+  Theorem pm_valid_file_lookup av file h mz meta rz rootraw root leaves d flat e t :
+    pmh_deserialize (firstn 127 file) = Ok h ->
+    read_range file (p_meta_off h) (p_meta_len h) = Some mz -> unzip mz = Some meta ->
+    read_range file (p_root_off h) (p_root_len h) = Some rz -> unzip rz = Some rootraw -> deserialize av rootraw = Ok root ->
+    read_range file (p_leaf_off h) (p_leaf_len h) = Some leaves ->
+    (* a directory tree of at most two levels of leaf directories under the root (the reader's budget) over the tile entries `flat` *)
+    (d <= 2)%nat -> stored d (file_leaf unzip av leaves) root flat -> runs_ok flat ->
+    In e flat -> e_id e <= t < e_id e + e_run e ->
+    e_off e + p_data_off h <= u64_max -> e_off e + p_data_off h + e_len e <= N.of_nat (length file) ->
+    pm_file_lookup unzip av file t = Ok (Some (Crash.sub file (N.to_nat (e_off e + p_data_off h)) (N.to_nat (e_len e)))).
+  Proof.
+    intros Hh Hm1 Hm2 Hr1 Hr2 Hr3 Hl Hd Hst Hruns Hin Ht Hov Hrange.
+    unfold pm_file_lookup. rewrite Hh. cbn [obind]. rewrite Hm1, Hm2, Hr1, Hr2, Hl, Hr3. cbn [obind].
+    pose proof (multi_level_lookup av (file_leaf unzip av leaves) d root flat Hst Hruns e t Hin Ht (2 - d)%nat) as Hlk.
+    replace (S d + (2 - d))%nat with 3%nat in Hlk by lia. rewrite Hlk. cbn [obind].
+    replace (u64_max <? e_off e + p_data_off h) with false by (symmetry; apply N.ltb_ge; exact Hov).
+    rewrite read_range_at by exact Hrange. reflexivity.
+  Qed.
+End AnyEncoder.
